@@ -1,6 +1,7 @@
 import TextxVerif.Proofs.PegGapSim
 import TextxVerif.Proofs.PegActiveSet
 import TextxVerif.Proofs.PegWsParam
+import TextxVerif.Proofs.TxGapBuild
 /-!
 # C22 — whitespace and comments between tokens do not change the model
 
@@ -25,6 +26,15 @@ Proved here
   the grammar (`visit_rule_params`, model `Peg/WsParam.lean`) — for every way of writing a set of characters
   (each of new-line, carriage return, tab as escape sequence or literally, any other character literally,
   any order, repetitions) the active set of the rule consists of exactly the characters written.
+
+* `C22_tree_terminals_are_tokens`: whole-run invariant — every terminal of the result tree is an entry of the
+  token table (or `EOF` at the end of the input), so under `gapExtOkB` none overlaps the insertion point;
+* `C22_slice_extendGap`, `C22_term_value_ext`, `C22_build_shift`, `C22_model_unchanged`: the **model** is
+  unchanged — `Tx.load` (parse + `parse_tree_to_objgraph`, mirror `Tx/Build.lean`, tied to the code by C01) gives
+  on the gap-extended input exactly the outcome it gives on the original one: the same objects, attribute
+  values, creation order and parents, or the same error; nested objects, match rules, abstract rules and
+  `use_regexp_group` included.  (The mirror's model carries no source positions.)
+* `C22_ws_param_tx`: the compiler mirror `Tx.compile` uses the same `ws` decoding (`Tx.wsParam`).
 
 Not proved: `C22_partial_comment` (inserting text matched by the Comment rule) — checked by the harness only.
 The full statement is false on the mirror and on the code because `comment_positions` is keyed by position
@@ -313,5 +323,119 @@ example : wsParam (spellWs [.lit ' ', .escT, .escR, .escN]) = ['\n', '\r', '\t',
 example : ruleMods [.flag "noskipws", .ws ['\\', 'r'], .flag "skipws"] {} =
     some { skipws := some true, ws := some ['\r'] } := by decide
 example : ruleMods [.flag "noskip"] {} = none := by decide
+
+/-! ## (6) the model: attribute values are read from the input by position -/
+
+/-- **Whole-run invariant: every terminal of the parse tree is a match of the token table.**  With
+memoization off, for every parser model, input, start node, state and fuel: each `Terminal (node, pos, len)`
+anywhere in the tree returned by `parse` is `EOF` at the end of the input (`len = 0`) or an entry
+`toks[node.tok][pos] = len` of the token table. -/
+theorem C22_tree_terminals_are_tokens (g : Grammar) (hm : g.memo = false) (n id : Nat) (s : PState) (v : Val)
+    (t : PState) (h : parse g n id s = (.ok v, t)) : v.allTerms (tokTermB g) = true := by
+  have := parse_terms g hm n id s
+  rw [h] at this
+  exact this
+
+/-- … hence, under the side conditions of `C22_partial_ws`, no terminal of the tree overlaps the insertion
+point: each one ends in front of `p` or starts at / behind it, inside the input. -/
+theorem C22_no_terminal_overlaps_gap (g : Grammar) (p : Nat) (ins : List Char) (toks' : Array (Array (Option Nat)))
+    (skipws : Bool) (ws : List Char) (h : gapExtOkB g p ins toks' skipws ws = true) (n id : Nat) (s : PState)
+    (v : Val) (t : PState) (hp : parse g n id s = (.ok v, t)) :
+    v.allTerms (fun _ q len => (decide (p ≤ q) || decide (q + len ≤ p)) && decide (q ≤ g.input.size)) = true := by
+  obtain ⟨hx, _, _⟩ := ext_of_check h
+  exact parse_terms_clear hx.memo hx.toks (Tx.rows_of_check h) n id s v t hp
+
+/-- **A slice that does not overlap the insertion point is unchanged** (the text `Terminal.value` of a regex
+match is `input[pos : pos+len]`): in the extended input it is found at the shifted position. -/
+theorem C22_slice_extendGap (inp : Array Char) (p : Nat) (ins : List Char) (hp : p ≤ inp.size) (q len : Nat)
+    (h : q + len ≤ p ∨ p ≤ q) :
+    Tx.slice (extendGap inp p ins) (sh p ins.length q) len = Tx.slice inp q len :=
+  Tx.slice_extendGap inp p ins hp q len h
+
+/-- **The value of a terminal is unchanged**: what `process_node` computes for a Terminal that does not overlap
+the insertion point (base-type conversion; with `use_regexp_group` the group-1 span, given compatible group
+tables) is the same on the extended input at the shifted position.  `x'` is `x` with the extended input. -/
+theorem C22_term_value_ext (x : Tx.BCtx) (p : Nat) (ins : List Char) (g1' : Array (Array (Option (Nat × Nat))))
+    (hp : p ≤ x.input.size)
+    (hg : x.cfg.useRegexpGroup = false ∨ Tx.g1CompatB x.g1 g1' x.input.size p ins.length = true)
+    (nd : Tx.CNode) (pos len : Nat) (h : pos + len ≤ p ∨ p ≤ pos) (hs : pos ≤ x.input.size) :
+    ({ x with input := extendGap x.input p ins, g1 := g1' } : Tx.BCtx).termValue nd (sh p ins.length pos) len =
+      x.termValue nd pos len := by
+  have hcx : Tx.CtxExt x { x with input := extendGap x.input p ins, g1 := g1' } p ins := ⟨rfl, rfl, rfl, rfl, hp, hg⟩
+  exact Tx.termValue_ext hcx nd pos len h hs
+
+/-- **Model construction commutes with the shift.**  `parse_tree_to_objgraph` on the shifted tree over the
+extended input gives what it gives on the tree over the original input — same objects (nested ones, match
+rules, abstract rules, the four assignment handlers), same creation numbers and parents, same errors, same
+fuel behaviour — for every tree none of whose terminals overlaps the insertion point. -/
+theorem C22_build_shift (x : Tx.BCtx) (p : Nat) (ins : List Char) (g1' : Array (Array (Option (Nat × Nat))))
+    (hp : p ≤ x.input.size)
+    (hg : x.cfg.useRegexpGroup = false ∨ Tx.g1CompatB x.g1 g1' x.input.size p ins.length = true)
+    (fuel : Nat) (tree : Val) (h : tree.allTerms (clearB x.input.size p) = true) :
+    Tx.build { x with input := extendGap x.input p ins, g1 := g1' } fuel (tree.shift (sh p ins.length)) =
+      Tx.build x fuel tree := by
+  have hcx : Tx.CtxExt x { x with input := extendGap x.input p ins, g1 := g1' } p ins := ⟨rfl, rfl, rfl, rfl, hp, hg⟩
+  exact Tx.build_shift hcx.c hcx.cfg _ fuel tree
+    (Val.allTerms_mono (fun n q l hh => Tx.termSame_of_clear hcx n q l hh) tree h)
+
+/-- **Gap extension leaves the model unchanged.**  For every compiled grammar `c` (`Tx.Compiled`: parser model
++ classes), configuration, input, insertion point, inserted string and token / group tables of the extended
+input such that the side conditions of `C22_partial_ws` hold for `c`'s parser model (`gapExtOkB`) and — when
+`use_regexp_group` is on — the group-1 tables are compatible: for every fuel the mirror of
+`metamodel.model_from_str` returns on the extended input exactly what it returns on the original input — the
+same model (classes, attribute values, creation order, parents: the mirror's model has no source positions),
+or the same syntax / semantic error. -/
+theorem C22_model_unchanged (c : Tx.Compiled) (cfg : Tx.Config) (input : Array Char)
+    (toks toks' : Array (Array (Option Nat))) (groups : Array Nat) (g1 g1' : Array (Array (Option (Nat × Nat))))
+    (p : Nat) (ins : List Char)
+    (h : gapExtOkB (c.grammar input toks) p ins toks' cfg.skipws cfg.ws = true)
+    (hg : cfg.useRegexpGroup = false ∨ Tx.g1CompatB g1 g1' input.size p ins.length = true) (fuel : Nat) :
+    Tx.load c cfg (extendGap input p ins) toks' groups g1' fuel = Tx.load c cfg input toks groups g1 fuel :=
+  Tx.load_gapExt c cfg input toks toks' groups g1 g1' p ins h hg fuel
+
+/-- the grammar compiler mirror (`Tx.compile`, C01) decodes a `ws` value with the function these theorems are
+about -/
+theorem C22_ws_param_tx (is : List WsItem) (h : WellSpelled is) (c : Char) :
+    c ∈ Tx.wsParam (String.ofList (spellWs is)) ↔ ∃ i ∈ is, i.denotes = c := by
+  have : Tx.wsParam (String.ofList (spellWs is)) = wsParam (spellWs is) := by simp [Tx.wsParam]
+  rw [this]
+  exact wsParam_denotes h c
+
+/-! ### non-vacuity -/
+
+/-- `Model: 'a' n=/\w+/;` -/
+def m1Gram : Tx.Gram :=
+  { rules := [{ name := "Model", body := .seq [.str 6 "a" false,
+      .asgn "n" .plain (.re 7 "\\w+" false) none false false] false }] }
+/-- `"a  xy"` and its token table (rows 0‥5: base types, 6: `'a'`, 7: `\w+`) -/
+def m1Input : Array Char := #['a', ' ', ' ', 'x', 'y']
+def m1Toks : Array (Array (Option Nat)) := #[#[], #[], #[], #[], #[], #[],
+  #[some 1, none, none, none, none, none], #[some 1, none, none, some 2, some 1, none]]
+/-- token table of `"a   xy"` (a blank inserted at 2) -/
+def m1ToksExt : Array (Array (Option Nat)) := #[#[], #[], #[], #[], #[], #[],
+  #[some 1, none, none, none, none, none, none], #[some 1, none, none, none, some 2, some 1, none]]
+
+def isModelN (v : String) : Tx.Outcome → Bool
+  | .model (.obj _ "Model" _ [("n", .prim (.str s))]) _ => s == v
+  | _ => false
+
+/-- the hypotheses of `C22_model_unchanged` hold for a real compiled grammar, and the model has the attribute
+value read from the input (`n = "xy"`, at 3 in the original and at 4 in the extended input) -/
+example : (match Tx.compile m1Gram with
+    | .ok c =>
+      gapExtOkB (c.grammar m1Input m1Toks) 2 [' '] m1ToksExt true defaultWs &&
+      isModelN "xy" (Tx.load c {} m1Input m1Toks #[] #[] 200) &&
+      isModelN "xy" (Tx.load c {} (extendGap m1Input 2 [' ']) m1ToksExt #[] #[] 200)
+    | .error _ => false) = true := by decide +kernel
+example : ({} : Tx.Config).skipws = true ∧ ({} : Tx.Config).ws = defaultWs ∧
+    ({} : Tx.Config).useRegexpGroup = false := by decide
+/-- compatible group tables (`use_regexp_group`): a group span at 1 moves to 2 when a character is inserted at 1 -/
+example : Tx.g1CompatB #[#[none, some (1, 1), none]] #[#[none, none, some (2, 1), none]] 2 1 1 = true := by
+  decide +kernel
+example : Tx.slice (extendGap m1Input 2 [' ']) (sh 2 1 3) 2 = "xy" ∧ Tx.slice m1Input 3 2 = "xy" := by
+  decide +kernel
+example : w1.memo = false ∧ (3 + 2 ≤ 2 ∨ 2 ≤ 3) := by decide
+/-- a terminal across the insertion point is excluded by `clearB` -/
+example : clearB 5 2 0 1 2 = false ∧ clearB 5 2 0 3 2 = true ∧ clearB 5 2 0 0 1 = true := by decide
 
 end Peg
